@@ -79,6 +79,15 @@ func newEvaluator(c encoder.VerifCodec, stage func(int)) *evaluator {
 
 func (e *evaluator) cnt(k string, n int64) { e.counts[e.name+"."+k] += n }
 
+// violTotal: number of violations reported so far (all classes)
+func (e *evaluator) violTotal() int64 {
+	var t int64
+	for _, n := range e.violN {
+		t += n
+	}
+	return t
+}
+
 func hexCap(b []byte) string {
 	if len(b) > 1<<16 {
 		return hex.EncodeToString(b[:1<<16]) + fmt.Sprintf("...(%d bytes)", len(b))
